@@ -156,6 +156,28 @@ m('rand-flow','C20',['RAND-FLOW'],'backend/groth16/bls12-381/prove.go','''		ar.A
 ''','')
 m('rand-source','C20',['RAND-SOURCE'],pl+'prove.go','''	s.bp[id_Bz] = getRandomPolynomial(order_blinding_Z)''','''	s.bp[id_Bz] = iop.NewPolynomial(&[]fr.Element{{}, {}, {}}, iop.Form{Basis: iop.Canonical, Layout: iop.Regular})''')
 m('flow-sw-emulated','C16',['FLOW-REF','FLOW-PARAM','FLOW-SOME'],'std/algebra/emulated/sw_emulated/point.go','''	c.scalarApi.AssertIsEqual(''','''	func(...any) {}(''',count=5)
+m('hash-kill','C13',['HASH-KILL'],'std/internal/logderivarg/logderivarg.go','''		hasher.Reset()
+		hasher.Write(i+1, commitment)''','''		hasher.Write(commitment)
+		hasher.Reset()
+		hasher.Write(i+1)''',note='commitment absorbed then discarded by Reset')
+m('hash-clean','C03',['HASH-CLEAN'],'backend/groth16/bn254/verify.go','''		hashBts := opt.HashToFieldFn.Sum(nil)
+		opt.HashToFieldFn.Reset()
+''','''		hashBts := opt.HashToFieldFn.Sum(nil)
+''',note='caller-supplied hasher left dirty by Verify')
+m('eff-dcl','C10',['EFF-DCL'],'constraint/blueprint_logderivlookup.go','''	b.lock.Lock()
+	if len(b.cachedEntries) < nbEntries {''','''	needLock := len(b.cachedEntries) < nbEntries
+	if needLock {
+		b.lock.Lock()
+	} else {
+		b.lock.Lock()
+	}
+	if len(b.cachedEntries) < nbEntries {''',note='lock taken behind an unlocked pre-check of the guarded field')
+m('codec-cbor','C09',['CODEC-CBOR'],'constraint/marshal.go','''		MaxArrayElements: 2147483647,
+''','''		MaxArrayElements: 131072,
+''')
+m('coeff-switch-mpc','C18',['COEFF-SWITCH'],'backend/groth16/bls12-381/mpcsetup/phase2.go','''		case constraint.CoeffIdMinusOne:
+			res.Sub(res, value)''','''		case constraint.CoeffIdMinusOne:
+			res.Add(res, value)''',count=2)
 # ---- benign refactors: behaviour-preserving edits that must NOT raise any alarm -------------------------------
 def benign_plonk_helper():
     f=os.path.join(WT,'backend/plonk/bn254/verify.go'); s=open(f).read()
